@@ -1,6 +1,7 @@
 package main
 
 import (
+	"fmt"
 	"go/token"
 	"go/types"
 	"sort"
@@ -347,6 +348,44 @@ func checkC19(e *Engine, r *Report) {
 			okAm = resolveLocal(wa[1]) == ssa.Value(am.Params[0]) && sliceFrom(wa[0]).HasCall(CallSpec{EV + "/types", "", "ParseChainID"})
 		}
 		r.Check(okAm, "typed data › Amino path hands on the whole sign doc", e.Pos(am.Pos()), "WrapTxToTypedData(chainID, signDocBytes)", "the Amino path renders something other than the complete sign-doc bytes")
+	})
+
+	r.Rule("R7", "PROVENANCE", "the default derivation path of `keys add` is BIP-44 m/44'/coin'/account'/0/index: every SDK path constructor called in client/keys receives the value of the --account flag in its account slot and the value of the --index flag in its address-index slot (CreateHDPath(coin, account, index); NewFundraiserParams(account, coin, index); NewParams(purpose, coin, account, change, index))", 1, func() {
+		pkgKeys := EV + "/client/keys"
+		slots := map[string][2]int{"CreateHDPath": {1, 2}, "NewFundraiserParams": {0, 2}, "NewParams": {2, 4}}
+		n := 0
+		flagOf := func(v ssa.Value) []string {
+			var out []string
+			for _, c := range sliceFrom(v).Calls() {
+				if isMethodNamed(c, "GetUint32") || isMethodNamed(c, "GetUint") || isMethodNamed(c, "GetInt") {
+					if nm, ok := constString(c.Call.Args[len(c.Call.Args)-1]); ok {
+						out = append(out, nm)
+					}
+				}
+			}
+			sort.Strings(out)
+			return out
+		}
+		for _, f := range e.SrcFuncs(func(p string) bool { return p == pkgKeys }) {
+			for _, c := range callsIn(f, false, func(c ssa.CallInstruction) bool {
+				fo := calleeObj(c)
+				if fo == nil || fo.Pkg() == nil || fo.Pkg().Path() != SDK+"/crypto/hd" {
+					return false
+				}
+				_, ok := slots[fo.Name()]
+				return ok
+			}) {
+				n++
+				sl := slots[calleeObj(c).Name()]
+				a := c.Common().Args
+				acc, idx := flagOf(a[sl[0]]), flagOf(a[sl[1]])
+				ok := len(acc) == 1 && acc[0] == "account" && len(idx) == 1 && idx[0] == "index"
+				r.Check(ok, "client/keys › "+fnKey(f)+" › hd."+calleeObj(c).Name()+" slots", e.Pos(c.Pos()), "account ← --account, address index ← --index", fmt.Sprintf("the HD path constructor receives %v in its account slot and %v in its address-index slot: the key stored for (account, index) is not the BIP-44 key m/44'/coin'/account'/0/index that every other wallet derives", acc, idx))
+			}
+		}
+		if n == 0 {
+			r.Bad("client/keys › HD path constructor", "", "no SDK HD path constructor call found in client/keys (anchors moved?)")
+		}
 	})
 
 	r.Rule("R6", "NARROWING", "the EIP-712 rendering of the custom-precompile messages is injective in its numeric fields: the uint256 amount and the domain chain id enter the typed data as the full big integer — never through Int64()/Uint64() (values that differ by a multiple of 2^64 would hash alike: one signature authorises another amount / another chain)", 1, func() {
